@@ -11,6 +11,7 @@ of sampled histories (labelled PARTIAL): the block-level operations are not mode
 -/
 import GoNfsd.Model.Fsck
 import GoNfsd.Lemmas.FsckMeta
+import GoNfsd.Lemmas.Names
 
 namespace GoNfsd.Props.C04
 open GoNfsd.Model.Fsck GoNfsd.Gen.Consts GoNfsd.Gen.Super
@@ -276,5 +277,17 @@ theorem fsck_sound (img : Image) (h : fsckOk img = true) : WF img := by
 theorem metaBlock_is_format_model (sz b : Nat) (hacc : GoNfsd.Props.C15.accepts sz) (hb : b < padEnd sz) :
     GoNfsd.Model.Mkfs.freshBlockBit sz b = metaBlock sz b :=
   GoNfsd.Lemmas.FsckMeta.freshBlockBit_eq_metaBlock sz b hacc hb
+
+/-! ### the namespace clause for ALL histories, on the reference model -/
+
+/-- "Names are unique" holds after EVERY history: in the reference file system M6 (which the
+    operation-sequence correspondence of C02 ties to the real server reply by reply, and which
+    reproduces the real RENAME, target unlinking and slot reuse), every directory of every state
+    reachable from the freshly formatted file system — by any sequence of operations with any
+    allocator and slot choices — has pairwise distinct names. -/
+theorem names_unique_in_every_reachable_state (u : Bool) (sz : Nat)
+    (ops : List (GoNfsd.Model.Fs.Op × GoNfsd.Model.Fs.Choice)) (i : Nat) :
+    (GoNfsd.Model.Fs.liveNames ((GoNfsd.Model.Fs.run (GoNfsd.Model.Fs.mkfs u sz) ops).1.get i).slots).Nodup :=
+  GoNfsd.Model.Fs.run_NU _ ops (GoNfsd.Model.Fs.mkfs_NU u sz) i
 
 end GoNfsd.Props.C04
